@@ -180,44 +180,45 @@ def native_pars(jp):
 
 
 # ----------------------------------------------------------------------------- evaluation
-def evaluate(model_name, dim, pars, q=None, qx=None, qy=None, modes=None):
-    """call_kernel and call_Fq (every effective-radius mode) on exactly these inputs."""
+def make_kernel(model, dim, qs, first_only=False):
+    if dim == "2d":
+        qx, qy = np.asarray(qs["qx"], "d"), np.asarray(qs["qy"], "d")
+        return model.make_kernel([qx[:1], qy[:1]] if first_only else [qx, qy])
+    q = np.asarray(qs["q"], "d")
+    return model.make_kernel([q[:1]] if first_only else [q])
+
+
+def evaluate(model_name, dim, pars, qs):
+    """call_kernel at every q; call_Fq for the volumes and for every effective-radius mode
+    (the latter on a one-point q vector: R_eff and the volumes do not depend on q)."""
     from sasmodels.direct_model import call_kernel, call_Fq
     model = get_model(model_name)
     info = model.info
-    if dim == "2d":
-        kernel = model.make_kernel([np.asarray(qx, "d"), np.asarray(qy, "d")])
-    else:
-        kernel = model.make_kernel([np.asarray(q, "d")])
-    res = {"raised": False, "error": "", "I": [], "F1": [], "F2": [], "reffs": [],
-           "vshell": "nan", "ratio": "nan"}
+    res = {"raised": False, "error": "", "I": [], "reffs": [], "vshell": "nan", "ratio": "nan"}
+    kernel = k1 = None
     try:
-        Iq = call_kernel(kernel, dict(pars))
-        res["I"] = fvec(Iq)
+        kernel = make_kernel(model, dim, qs)
+        res["I"] = fvec(call_kernel(kernel, dict(pars)))
+        k1 = make_kernel(model, dim, qs, first_only=True)
         nmodes = len(info.radius_effective_modes or [])
-        if modes is None:
-            modes = list(range(1, nmodes + 1))
-        first = True
-        for m in ([0] + list(modes)):
+        for m in range(0 if nmodes == 0 else 1, nmodes + 1):
             fp = dict(pars)
             fp["radius_effective_mode"] = m
-            F1, F2, reff, vshell, ratio = call_Fq(kernel, fp)
-            if first:
-                res.update(F1=fvec(F1) if F1 is not None else [], F2=fvec(F2),
-                           vshell=fstr(vshell), ratio=fstr(ratio))
-                first = False
+            _, _, reff, vshell, ratio = call_Fq(k1, fp)
+            res.update(vshell=fstr(vshell), ratio=fstr(ratio))
             if m:
                 res["reffs"].append(fstr(reff))
     except Exception as exc:                                    # logged, judged by the spec
         res.update(raised=True, error=repr(exc)[:300])
-    kernel.release()
+    for k in (kernel, k1):
+        if k is not None:
+            k.release()
     return res
 
 
-def q_points(smax, smin, dim, rng):
+def q_points(smax, dim, rng):
     """q values with q*size between 0.1 and 20 (size = largest length of the set)."""
-    c = [0.1, 0.4, 1.5, 5.0, 20.0]
-    q = [ck / smax for ck in c]
+    q = [ck / smax for ck in (0.1, 0.4, 1.5, 5.0, 20.0)]
     if dim == "1d":
         return {"q": q}
     ang = [rng.uniform(0, 2 * math.pi) for _ in q]
@@ -232,32 +233,30 @@ def base_events(req):
     tid = req["first_tid"]
     table = table_event(name)
     has_orient = any(p.type == "orientation" for p in kernel_call_parameters(info))
-    for k in range(req["n_sets"]):
-        dims = [d for d in req.get("dims", ["1d"]) if d == "1d" or has_orient]
-        for dim in dims:
+    for dim, nsets in (("1d", req["n_sets"]), ("2d", req.get("n_sets_2d", 0) if has_orient else 0)):
+        for k in range(nsets):
             pars = random_pars(info, rng.randrange(2 ** 31), is2d=(dim == "2d"))
             pars["background"] = 0.0 if k % 3 != 2 else 2.0 ** -7
             if dim == "2d":
                 for p in kernel_call_parameters(info):
                     if p.type == "orientation":
                         pars[p.name] = rng.choice([0.0, 20.0, 45.0, 77.0, 90.0, -30.0, 130.0])
-            if k % 3 == 1 or req.get("pd_all"):
+            if k % 3 == 1:
                 add_dispersity(info, pars, rng, dim)
-            smax, smin = length_scale(info, pars)
-            qs = q_points(smax, smin, dim, rng)
-            res = evaluate(name, dim, pars, **qs)
-            ev = {"ev": "Base", "tid": tid, "model": name, "dim": dim, "table": table,
-                  "pars": jsonable_pars(pars), "res": res}
-            ev.update({kk: fvec(v) for kk, v in qs.items()})
-            emit(ev)
+            smax, _ = length_scale(info, pars)
+            qs = q_points(smax, dim, rng)
+            res = evaluate(name, dim, pars, qs)
+            emit({"ev": "Base", "tid": tid, "model": name, "dim": dim, "table": table,
+                  "pars": jsonable_pars(pars), "qs": {kk: fvec(v) for kk, v in qs.items()},
+                  "res": res})
             tid += 1
 
 
 def eval_events(req):
     for r in req["requests"]:
         pars = native_pars(r["pars"])
-        qs = {k: [float(x) for x in r[k]] for k in ("q", "qx", "qy") if k in r}
-        res = evaluate(r["model"], r["dim"], pars, **qs)
+        qs = {k: [float(x) for x in v] for k, v in r["qs"].items()}
+        res = evaluate(r["model"], r["dim"], pars, qs)
         emit({"ev": "Eval", "rid": r["rid"], "model": r["model"], "res": res})
 
 
